@@ -36,10 +36,10 @@ def ops_strategy():
 
     rel = st.sampled_from(["lim-1", "lim", "lim+1", "2lim", "half", "small", "max", "hi", "hi-1", "zero"])
     which = st.sampled_from(["stream", "stream", "conn"])
-    sref = st.sampled_from(["p-bidi0", "p-bidi0", "p-bidi1", "p-uni0", "p-uni1", "s-bidi0", "p-bidi-last", "p-bidi-over", "p-uni-last", "p-uni-over"])
+    sref = st.sampled_from(["p-bidi0", "p-bidi0", "p-bidi1", "p-uni0", "p-uni1", "s-bidi0", "s-bidi0", "s-bidi0", "p-bidi-last", "p-bidi-over", "p-uni-last", "p-uni-over"])
     stream = st.tuples(st.just("stream"), sref, which, rel, st.sampled_from([0, 1, 1, 10, 500, 1200]), st.booleans())
     reset = st.tuples(st.just("reset"), sref, which, rel)
-    simple = st.sampled_from([("ack",), ("ack",), ("timer",), ("sut_open",), ("sut_write",), ("challenges", 40), ("challenges", 500), ("challenges_offpath", 40), ("challenges_offpath", 200), ("crypto_far",), ("crypto_grow",), ("crypto_beyond",), ("ncid_churn",), ("ncid_churn_quiet",), ("ncid_rotate", 1), ("ncid_rotate", 12), ("dup_last",), ("never_finished", 30)])
+    simple = st.sampled_from([("ack",), ("ack",), ("timer",), ("sut_open",), ("sut_open",), ("sut_open",), ("sut_write",), ("challenges", 40), ("challenges", 500), ("challenges_offpath", 40), ("challenges_offpath", 200), ("crypto_far",), ("crypto_grow",), ("crypto_beyond",), ("ncid_churn",), ("ncid_churn_quiet",), ("ncid_rotate", 1), ("ncid_rotate", 12), ("dup_last",), ("never_finished", 30)])
     # an empty FIN at offset 0 fixes the final size at 0 (a falsy value): whatever follows on that stream exceeds it
     fin0 = st.tuples(st.just("stream"), st.sampled_from(["p-bidi0", "p-bidi0", "p-bidi1", "p-uni0"]), st.just("stream"), st.just("zero"), st.just(0), st.just(True))
     follow = st.tuples(st.just("stream"), st.sampled_from(["p-bidi0", "p-bidi0", "p-bidi1", "p-uni0"]), st.just("stream"), st.sampled_from(["small", "half", "lim"]), st.sampled_from([1, 10]), st.booleans())
